@@ -2,6 +2,17 @@
 HOOK_COMMITS = []
 NOT_APPLICABLE = {}
 CLAIMS = {
+    "C20": dict(
+        text="spec/Partition.tla transcribes the per-rank ownership and ghost-layer construction (types in order, ranks in order, shared claim map). TLC checks - exhaustively over all assignments of the cells "
+        "of small meshes with one and two main-dimension element types to 2 and 3 ranks - that every element and every node has exactly one owner and that a part holds every element touching a node it owns "
+        "(row completeness), and rejects the defective ghost rule found in the code. Real gmsh partitions (TRI3/TRI6/QUAD4/QUAD8, a mixed TRI3+QUAD4 plate with a hole, TETRA4/PRISM6; more types and part counts in "
+        "the thorough tier) are recorded - assignment and the five per-group arrays - and validated by Trace_Partition.tla (recomputed ownership/ghosts equal the recorded ones, invariants hold). Per part a real "
+        "simulation assembles K: owned rows equal the global rows, owned-row energies sum to the global energy; numbering/coordinates kept; partitioning twice gives identical data; Mesh.Merge with mapping on coincident and disjoint meshes.",
+        note="Trusted: TLC; gmsh as the partitioner (environment assumption of the exhaustive model: a boundary element lies in the part of the cell it bounds - the model without it is reported as fragility in the evidence). "
+        "MPI itself is not installed: the reduction is replaced by explicit summation over the parts.",
+        technique="TLA+ transcription of the ownership algorithm, TLC exhaustive over assignments; recorded real partitions validated by a TLA+ trace specification; per-part assembly replay",
+        design_ref="DESIGN.md 6/C20",
+    ),
     "C16": dict(
         text="spec/Results.tla defines the meaning of result names per simulation kind (Elastic 2D/3D, Thermal, Beam 1D/2D/3D, PhaseField 2D/3D, HyperElastic, WeakForms with 2 and 3 dofs per node) as tokens "
         "(field, component | norm | all | von Mises at each Gauss point then element mean). The harness sets u, v, a (and the damage) to mutually distinguishable random arrays - not an equilibrium state - "
